@@ -18,7 +18,7 @@ RULE = ('stores generated from cell composites (process + flow steps + optional 
         '(with and without an update) and plain variable updates mixed in; non-trivial = >=3 batches applied, >=2 '
         'operation kinds, and a combined update or a second-generation operation; distinct = distinct case spec')
 PLAN = {'quick': {'n': 10000, 'min_cases': 600}, 'thorough': {'n': 100000, 'min_cases': 10000}}
-REQUIRED_ORACLES = ['tree_matches_shadow', 'untouched_nodes_keep_identity', 'moved_keeps_identity',
+REQUIRED_ORACLES = ['reissued_update', 'tree_matches_shadow', 'untouched_nodes_keep_identity', 'moved_keeps_identity',
                     'add_existing_rejected', 'combined_all_applied', 'delete_by_path']
 ANCHORS = ['vivarium.core.store:Store.apply_update', 'vivarium.core.store:Store.add', 'vivarium.core.store:Store.move',
            'vivarium.core.store:Store.add_node', 'vivarium.core.store:Store.insert', 'vivarium.core.store:Store.generate',
@@ -27,7 +27,7 @@ ASSUMPTIONS = ['deterministic dividers (set, split of even integers, zero)',
                'states given to _add / _generate only name declared variables',
                'Store-level: operations are applied directly with Store.apply_update (engine-level histories are C10)']
 
-KINDS = ['add', 'add_dup', 'add_existing', 'delete', 'delete_path', 'delete_var', 'generate', 'divide', 'move', 'move_update',
+KINDS = ['delete_reissued', 'add', 'add_dup', 'add_existing', 'delete', 'delete_path', 'delete_var', 'generate', 'divide', 'move', 'move_update',
          'combo', 'plain']
 
 
@@ -50,7 +50,7 @@ def gen(r, tier, i):
                 return ['add_dup', port, fresh.pop(0), 64 * r.randint(0, 9)]
             if kind == 'add_existing' and here:
                 return ['add_existing', port, r.choice(here), 64 * r.randint(0, 9)]
-            if kind in ('delete', 'delete_path') and here:
+            if kind in ('delete', 'delete_path', 'delete_reissued') and here:
                 k = r.choice(here)
                 here.remove(k)
                 return [kind, port, k]
@@ -167,7 +167,32 @@ def run(spec):
     applied = 0
     kinds_seen = set()
     combos = 0
+    intact_evals = 0
+    intact_viol = []
     for ops in spec['batches']:
+        if ops[0][0] == 'delete_reissued':
+            # an update belongs to the process that returned it: the same object handed in again (after the
+            # child was added back) must be carried out again
+            _, port, key = ops[0]
+            if key not in shadow[port]:
+                continue
+            U = {port: {'_delete': [key]}}
+            try:
+                store.apply_update(U, dir_store)
+                store.apply_update({port: {'_add': [{'key': key, 'state': {'st': {'n': 5}}}]}}, dir_store)
+                store.apply_update(U, dir_store)
+            except Exception as ex:
+                V.check('reissued_update', False, ('re-issuing a _delete update raised', type(ex).__name__, str(ex)[:200], ops))
+                break
+            shadow = copy.deepcopy(shadow)
+            shadow[port].pop(key)
+            got = real_tree()
+            applied += 1
+            kinds_seen.add('delete_reissued')
+            if not V.check('reissued_update', got == shadow,
+                           lambda: ('a _delete update object handed in a second time was not carried out', ops, _ddiff(shadow, got))):
+                break
+            continue
         update = {}
         touched = set()       # path prefixes whose subtree may change identity
         new_shadow = copy.deepcopy(shadow)
@@ -298,11 +323,18 @@ def run(spec):
                     touched.add((op[1], op[2]))
         before_nodes = nodes()
         before_procs = procs()
+        skeleton = _skel(update)
         try:
-            store.apply_update(copy.deepcopy(update) if False else update, dir_store)
+            store.apply_update(update, dir_store)
             raised = None
         except Exception as ex:
             raised = ex
+        # the update belongs to the process that returned it (it may hand the same object in again):
+        # carrying it out must not consume it
+        # (a clause of C08, harvested by C08's check from this workload; not a verdict of C09)
+        intact_evals += 1
+        if _skel(update) != skeleton:
+            intact_viol.append(('apply_update modified the structural update object it was given', ops, _ddiff(skeleton, _skel(update))))
         applied += 1
         kinds_seen.update(op[0] for op in ops)
         combos += len(ops) > 1
@@ -356,7 +388,17 @@ def run(spec):
     gen2 = any(len(op[2]) >= 3 for ops in spec['batches'] for op in ops)
     return {'viol': list(V), 'evals': V.evals, 'stats': {'batches_applied': applied, 'combined_updates': combos},
             'nontrivial': applied >= 3 and len(kinds_seen) >= 2 and (combos >= 1 or gen2),
+            'update_intact': {'evals': intact_evals, 'viol': intact_viol[:3]},
             'classes': sorted('op_' + k for k in kinds_seen), 'summary': {'batches_applied': applied, 'kinds': sorted(kinds_seen)}}
+
+
+def _skel(u):
+    """Structure of an update: dictionaries and lists by content, everything else (processes, numbers) by repr/identity."""
+    if isinstance(u, dict):
+        return {k: _skel(v) for k, v in u.items()}
+    if isinstance(u, (list, tuple)):
+        return [_skel(v) for v in u]
+    return u if isinstance(u, (int, float, str, bool, type(None))) else id(u)
 
 
 def _ddiff(a, b, p=()):
